@@ -262,11 +262,12 @@ func (m *MethodScope) resolveFieldNameConflicts(fieldName func(string) string, n
 }
 
 // resolveTypeParamShadowing renames the type parameters whose name was
-// generated (blank type parameters) if it is used as package qualifier
-// or by the method bodies (a constraint named Append gives append).
+// generated (blank type parameters) if it is used as package qualifier,
+// by the method bodies (a constraint named Append gives append) or as the
+// name of a type the methods write without qualifier.
 // Type parameters named in the source can not be renamed, the signatures
 // refer to them.
-func (m *MethodScope) resolveTypeParamShadowing() {
+func (m *MethodScope) resolveTypeParamShadowing(typeNames map[string]bool) {
 	for _, v := range m.vars {
 		if n := v.vr.Name(); n != "" && n != "_" {
 			continue
@@ -275,7 +276,7 @@ func (m *MethodScope) resolveTypeParamShadowing() {
 		for n := 1; ; n++ {
 			_, isImport := m.registry.searchImport(name)
 			other, used := m.searchVar(name)
-			if !isImport && !isBodyIdent(name) && (!used || other == v) {
+			if !isImport && !isBodyIdent(name) && !typeNames[name] && (!used || other == v) {
 				break
 			}
 			name = v.Name + "MoqParam" + strconv.Itoa(n)
